@@ -2,6 +2,8 @@
 import re
 
 from .model import ADM_TEXT
+from . import rstview as _V
+_V.GENERATED_ADM_TEXTS[:] = sorted(set(ADM_TEXT.values()))
 
 
 def nb(lines):
